@@ -134,6 +134,25 @@ def check_limiter(ctx):
     R2b = ctx.rule("R2b", "request_allowed: visits every limit; denies when count(entries younger than now-period) >= max; true only after the loop")
     R2c = ctx.rule("R2c", "the log is pruned with the longest period")
     b = prog.async_body(BUA)
+    # evaluation-first, at the entry point: block_until_allowed is interpreted on limiters built by RateLimit::new for several
+    # configured lists and on concrete logs (rate_model.py). One round decides: the request is admitted (the function returns, the
+    # log is the pruned log plus exactly one entry read from the clock AFTER the wait) or it waits again (no entry added).
+    from .rate_model import entry_table
+    et = entry_table(prog)
+    if et is not None:
+        ctx.floor(R2b, "evaluated (limits, log) samples at block_until_allowed", len(et), 30)
+        for limits, lg, got, want in et:
+            at = "%s:%s" % (b.file, b.line)
+            key = [repr(limits), repr(lg)]
+            ctx.require(R2b, got[0] == want[0], at, "limits %s, log %s at t=1000: the request %s (definition: %s)" % (limits, lg, got[0], want[0]), [BUA, "admission"] + key)
+            kept_g = [t for t in got[1] if t in lg]
+            kept_w = [t for t in want[1] if t in lg]
+            ctx.require(R2c, kept_g == kept_w, at, "limits %s, log %s: entries kept %s (still inside the longest window: %s)" % (limits, lg, kept_g, kept_w), [BUA, "pruning"] + key)
+            new_g = [t for t in got[1] if t not in lg]
+            new_w = [t for t in want[1] if t not in lg]
+            ctx.require(R2a, got[0] != want[0] or new_g == new_w, at, "limits %s, log %s: entries logged %s (an admitted request is logged once, with the clock read after the wait: %s)" % (limits, lg, new_g, new_w),
+                        [BUA, "logging"] + key)
+        return
     ra = b.calls_to("acmed::endpoint::RateLimit::request_allowed")
     pushes = [c for c in b.calls_to("alloc::vec::Vec::push")
               if ("acmed::endpoint::RateLimit", "query_log") in arg_origins(c, 0).fields]
@@ -175,6 +194,21 @@ def check_limiter(ctx):
             after = b.reachable_after(pushes[0].bb)
             ctx.require(R2a, ra[0].bb not in after, pushes[0].where(), "one log entry per admission (push is followed by return)",
                         [BUA, "push-in-loop"])
+    # R2b / R2c evaluation-first: RateLimit::new builds the limiter for several configured lists (in several orders), the log is
+    # filled with concrete instants and request_allowed / prune_log are interpreted (rate_model.py); the expected answers follow
+    # the property's definition. The structural rules below are the fallback when the interpreter cannot run this code.
+    from .rate_model import admission_table
+    tab = admission_table(prog)
+    if tab is not None:
+        rb = prog.must_body("acmed::endpoint::RateLimit::request_allowed")
+        pb = prog.must_body("acmed::endpoint::RateLimit::prune_log")
+        ctx.floor(R2b, "evaluated (limits, log) samples", len(tab), 20)
+        for limits, lg, a, wa, pr, wp in tab:
+            ctx.require(R2b, a == wa, "%s:%s" % (rb.file, rb.line), "limits %s, log %s (now=1000): request_allowed = %s (definition: %s)" % (limits, lg, a, wa),
+                        ["request_allowed", "evaluated", repr(limits), repr(lg)])
+            ctx.require(R2c, pr == wp, "%s:%s" % (pb.file, pb.line), "limits %s, log %s (now=1000): prune_log keeps %s (entries still inside the longest window: %s)" % (limits, lg, pr, wp),
+                        ["prune_log", "evaluated", repr(limits), repr(lg)])
+        return
     # R2b — the admission predicate, wherever it lives: request_allowed, its (inlined) helpers and their closures
     rb = prog.must_body("acmed::endpoint::RateLimit::request_allowed")
     fam = [rb]
